@@ -3,6 +3,8 @@
 //   S [salt hex]            start a session (optional repo salt)
 //   f <name> <recipe> <part>   clean a file sequentially;  fp ...: cleaned concurrently with the other fp files of the session
 //   E                       finalize the session, then scan the store and run the per-session oracles
+//   X                       abandon the session without finalizing it (after its xorb uploads have settled); its files are forgotten
+//   S <salt|-> lost|exists  the store loses the response to this session's shard upload / answers "exists" for a shard it holds
 //   D                       download every file cleaned so far (whole + ranges) and compare
 // recipe: id:len,id:len,...  (block id -> splitmix64 byte stream, truncated to len);  part: all | n (call size) | a+b+c (cycled)
 // Oracle verdicts are tagged with the property they belong to:  orc <id> FAIL [Cxx] ...
@@ -34,6 +36,10 @@ use crate::util::Lines;
 pub struct Counting {
     inner: Arc<LocalClient>,
     pub puts: std::sync::Mutex<Vec<(MerkleHash, usize, usize)>>, // (xorb, bytes handed, bytes reported)
+    // how the store answers a shard upload: 0 as LocalClient does; 1 the shard is stored but the response is lost (an error
+    // comes back); 2 a shard the store already holds is answered with "exists" (Ok(false), as the remote service does)
+    pub shard_mode: u8,
+    pub shard_dir: PathBuf,
 }
 
 #[async_trait]
@@ -59,7 +65,14 @@ impl ReconstructionClient for Counting {
 #[async_trait]
 impl VerifRegistrationClient for Counting {
     async fn upload_shard(&self, prefix: &str, hash: &MerkleHash, force_sync: bool, shard_data: &[u8], salt: &[u8; 32]) -> Result<bool, CasClientError> {
-        VerifRegistrationClient::upload_shard(&*self.inner, prefix, hash, force_sync, shard_data, salt).await
+        if self.shard_mode == 2 && self.shard_dir.join(format!("{}.mdb", hash.hex())).exists() {
+            return Ok(false);
+        }
+        let r = VerifRegistrationClient::upload_shard(&*self.inner, prefix, hash, force_sync, shard_data, salt).await;
+        if self.shard_mode == 1 {
+            return Err(CasClientError::Other("verif: response to the shard upload lost".into()));
+        }
+        r
     }
 }
 #[async_trait]
@@ -248,7 +261,8 @@ async fn run_async(ops: Vec<Vec<String>>, root: PathBuf, tp: Arc<ThreadPool>) ->
     for op in &ops {
         match op[0].as_str() {
             "S" => {
-                sess_salt = if op.len() > 1 { crate::util::unhex(&op[1]).try_into().unwrap() } else { [0u8; 32] };
+                sess_salt = if op.len() > 1 && op[1] != "-" { crate::util::unhex(&op[1]).try_into().unwrap() } else { [0u8; 32] };
+                let shard_mode: u8 = match op.get(2).map(|x| x.as_str()) { Some("lost") => 1, Some("exists") => 2, _ => 0 };
                 xorbs_before = list_dir(&xorb_dir);
                 shards_before = list_dir(&shard_dir);
                 sess_files.clear();
@@ -256,11 +270,11 @@ async fn run_async(ops: Vec<Vec<String>>, root: PathBuf, tp: Arc<ThreadPool>) ->
                 // talk to the same kind of client through the counting wrapper
                 let cfg = config(&base, sess_salt);
                 counting = None;
-                let opened = if nsess % 3 == 2 {
+                let opened = if nsess % 3 == 2 && shard_mode == 0 {
                     FileUploadSession::new(cfg, tp.clone(), None).await
                 } else {
                     let Endpoint::FileSystem(ref path) = cfg.data_config.endpoint else { unreachable!() };
-                    let c = Arc::new(Counting { inner: Arc::new(LocalClient::new(path, None).unwrap()), puts: Default::default() });
+                    let c = Arc::new(Counting { inner: Arc::new(LocalClient::new(path, None).unwrap()), puts: Default::default(), shard_mode, shard_dir: shard_dir.clone() });
                     counting = Some(c.clone());
                     FileUploadSession::new_with_client(cfg.clone(), tp.clone(), c).await
                 };
@@ -329,7 +343,11 @@ async fn run_async(ops: Vec<Vec<String>>, root: PathBuf, tp: Arc<ThreadPool>) ->
                 let m = match s.finalize().await {
                     Ok(m) => m,
                     Err(e) => {
-                        out.push(("obs", format!("finalize-error {:?}", e)));
+                        out.push(("obs", format!("finalize-error {:?}", e).chars().take(80).collect()));
+                        // the session did not complete: its files count for nothing later
+                        let gone: HashSet<usize> = sess_files.drain(..).collect();
+                        files = files.into_iter().enumerate().filter(|(i, _)| !gone.contains(i)).map(|(_, f)| f).collect();
+                        nsess += 1;
                         continue;
                     },
                 };
@@ -560,6 +578,33 @@ async fn run_async(ops: Vec<Vec<String>>, root: PathBuf, tp: Arc<ThreadPool>) ->
                     }
                 }
                 let _ = &mut stored_chunks;
+                nsess += 1;
+            },
+            "X" => {
+                for jh in pending.drain(..) {
+                    let _ = jh.await;
+                }
+                let Some(s) = session.take() else { continue };
+                // let the xorb uploads that are under way reach the store (dropping the session aborts its tasks)
+                let mut last = list_dir(&xorb_dir).len();
+                let mut stable = 0;
+                for _ in 0..60 {
+                    tokio::time::sleep(std::time::Duration::from_millis(50)).await;
+                    let n = list_dir(&xorb_dir).len();
+                    if n == last {
+                        stable += 1;
+                        if stable >= 4 {
+                            break;
+                        }
+                    } else {
+                        stable = 0;
+                        last = n;
+                    }
+                }
+                drop(s);
+                let gone: HashSet<usize> = sess_files.drain(..).collect();
+                files = files.into_iter().enumerate().filter(|(i, _)| !gone.contains(i)).map(|(_, f)| f).collect();
+                out.push(("obs", format!("X{} xorbs_in_store={}", nsess, last)));
                 nsess += 1;
             },
             "D" => {
